@@ -185,6 +185,57 @@ pub fn oracle(scn: &SenderScn, ctx: &Ctx, trace: &SenderTrace) {
                 );
             }
         }
+        // --- liveness: while the object still has transfers to make (carousel: always) and is due, a read that
+        // returns 'nothing to send' is wrong (an object stuck in its queue never violates the counting rules)
+        if !triggered && o.target.is_none() {
+            let published_seq = if scn.spec.full_fdt {
+                add_seq(trace, i).and_then(|a| trace.ops.iter().find(|r| r.seq > a && r.result == OpResult::Published(true)).map(|r| r.seq))
+            } else {
+                add_seq(trace, i)
+            };
+            if let Some(pub_seq) = published_seq {
+                let done = mine.iter().filter(|t| t.stop_seq.is_some()).count();
+                let more = o.carousel.is_some() || (done as u32) < o.max_transfer_count;
+                let open = mine.iter().any(|t| t.stop_seq.is_none());
+                if more && !open {
+                    // (seq, us) from which the next transfer is due
+                    let (from_seq, due_us) = match mine.last() {
+                        None => (pub_seq, o.start_ms.map(|m| m * 1000).unwrap_or(0)),
+                        Some(last) => {
+                            let stop = last.stop_us.unwrap_or(0);
+                            let in_burst = (done as u32) % o.max_transfer_count.max(1) != 0;
+                            let due = match (&o.carousel, in_burst) {
+                                (Some(CarouselSpec::DelayMs(d)), false) => stop + d * 1000,
+                                (Some(CarouselSpec::IntervalMs(d)), false) => stop.max(last.start_us + d * 1000),
+                                _ => stop,
+                            };
+                            (last.stop_seq.unwrap_or(0), due)
+                        }
+                    };
+                    let gone = removed.unwrap_or(u64::MAX);
+                    for (pi, p) in trace.polls.iter().enumerate() {
+                        let end_seq = trace.polls.get(pi + 1).map(|n| n.seq_begin).unwrap_or(u64::MAX);
+                        if p.drained && p.seq_begin > from_seq && p.t_us > due_us + 1000 && end_seq < gone {
+                            violate(
+                                ctx,
+                                "C12/due-object-not-transferred",
+                                if o.carousel.is_some() { "carousel" } else { "-" },
+                                format!(
+                                    "toi={}: {} transfer(s) done of {}{}, the next one is due since +{} us, yet the read at +{} us returned 'nothing to send' and no transfer started",
+                                    toi,
+                                    done,
+                                    o.max_transfer_count,
+                                    if o.carousel.is_some() { " per carousel cycle" } else { "" },
+                                    due_us.saturating_sub(t0_us()),
+                                    p.t_us.saturating_sub(t0_us())
+                                ),
+                            );
+                            break;
+                        }
+                    }
+                }
+            }
+        }
         // --- removal semantics
         if let Some(r) = removed {
             let stoppable = o.immediate_stop == Some(true) || completed_before(r) > 0;
